@@ -447,6 +447,19 @@ impl Store {
             .map(|value| deserialize_frame((id.as_bytes(), value)))
     }
 
+    /// The raw keys of the three partitions (frames, topic index, context index), in key order.
+    #[cfg(feature = "verif-hooks")]
+    pub fn verif_raw_keys(&self) -> (Vec<Vec<u8>>, Vec<Vec<u8>>, Vec<Vec<u8>>) {
+        let keys = |p: &PartitionHandle| -> Vec<Vec<u8>> {
+            p.iter().filter_map(|kv| kv.ok()).map(|(k, _)| k.to_vec()).collect()
+        };
+        (
+            keys(&self.frame_partition),
+            keys(&self.idx_topic),
+            keys(&self.idx_context),
+        )
+    }
+
     #[tracing::instrument(skip(self))]
     pub fn head(&self, topic: &str, context_id: Scru128Id) -> Option<Frame> {
         // No stored topic contains the delimiter byte (append and import refuse it). Inside a
